@@ -411,20 +411,23 @@ func (t *Teddy) FindMatch(haystack []byte, start int) (int, int) {
 
 	// Process candidates
 	for pos != -1 {
-		// Iterate through all set bits in bucket mask (like Rust's verify64)
+		// Several literals can match at this candidate (one a prefix of another) and
+		// they may sit in different buckets. Leftmost-first needs the one that comes
+		// first in pattern order, which is not bucket order once there are more
+		// patterns than buckets: check every indicated bucket, keep the smallest ID.
+		best := -1
 		for bucketMask != 0 {
-			// Find lowest set bit (bucket ID)
 			bucket := bits.TrailingZeros8(bucketMask)
-			bucketMask &^= 1 << bucket // Clear the bit
+			bucketMask &^= 1 << bucket
 
-			// Verify patterns in this specific bucket
 			matchPos, patternID := t.verifyBucket(haystack[accumulatedOffset:], pos, bucket)
-			if matchPos != -1 && patternID >= 0 && patternID < len(t.patterns) {
-				// Match found! Return absolute start and end
-				matchStart := start + accumulatedOffset + matchPos
-				matchEnd := matchStart + len(t.patterns[patternID])
-				return matchStart, matchEnd
+			if matchPos != -1 && patternID >= 0 && patternID < len(t.patterns) && (best < 0 || patternID < best) {
+				best = patternID
 			}
+		}
+		if best >= 0 {
+			matchStart := start + accumulatedOffset + pos
+			return matchStart, matchStart + len(t.patterns[best])
 		}
 
 		// No match at this candidate in any bucket, continue searching
